@@ -391,7 +391,10 @@ Definition arrives_listen (s : segment) (iss mtu0 : Z) : listen_result :=
 Definition arrives_closed (h : header) (text_len : Z) : option header :=
   if c_rst (h_ctl h) then None
   else if c_ack (h_ctl h) then Some (hb_rst (mkHdr (h_dport h) (h_sport h) (h_ack h) 0 ctl0 0 0))
-  else Some (hb_ack (hb_rst (mkHdr (h_dport h) (h_sport h) 0 0 ctl0 0 0)) (wadd (h_seq h) text_len)).
+  else
+    (* ACK = SEG.SEQ + SEG.LEN, SEG.LEN counting SYN and FIN (three wrapping_add calls) *)
+    let seg_len := wadd (wadd text_len (b2z (c_syn (h_ctl h)))) (b2z (c_fin (h_ctl h))) in
+    Some (hb_ack (hb_rst (mkHdr (h_dport h) (h_sport h) 0 0 ctl0 0 0)) (wadd (h_seq h) seg_len)).
 
 (* ---- send (l.150), receive (l.174) ---- *)
 Definition accepts_send (s : state) : bool :=
